@@ -668,14 +668,17 @@ class PropertyRun:
             'wall_s': round(time.time() - self.t0, 2),
             'violations': len(self.violations),
         }
-        os.makedirs(os.path.join(VERIF, 'evidence'), exist_ok=True)
+        # development runs against a scratch copy of the repository (VERIF_REPO) never touch the committed
+        # evidence: that is written only by runs against /repo itself
+        evdir = os.path.join(VERIF, '.cache', 'scratch-evidence') if os.environ.get('VERIF_REPO') else os.path.join(VERIF, 'evidence')
+        os.makedirs(evdir, exist_ok=True)
         try:
             import jsonschema
             schema = json.load(open(os.path.join(VERIF, 'schemas', 'EVIDENCE.schema.json')))
             jsonschema.validate(ev, schema)
         except FileNotFoundError:
             pass
-        with open(os.path.join(VERIF, 'evidence', self.pid + '.json'), 'w') as f:
+        with open(os.path.join(evdir, self.pid + '.json'), 'w') as f:
             json.dump(ev, f, indent=1, default=str)
         self.log("  obligations=%d discharged=%d undecided=%d  bounded=%s  level=%s  wall=%.1fs" % (
             n_ob, n_dis, len(self.undecided), (self.brep.evaluations if self.brep else 0), level, time.time() - self.t0))
